@@ -28,6 +28,20 @@ pub open spec fn akey_lt(a: AKey, b: AKey) -> bool {
     a.index < b.index || (a.index == b.index && (kind_rank(a.kind) < kind_rank(b.kind)
         || (a.kind == b.kind && a.id < b.id)))
 }
+impl NodeMode { pub fn rank_(&self) -> (r: u8) ensures r == kind_rank(*self) { match self { NodeMode::Metadata => 0, NodeMode::Updated => 1, NodeMode::Tree => 2, NodeMode::Item => 3 } } }
+/// NodeMode derives PartialOrd/Ord in the real code (declaration order = discriminant order 0..3)
+impl PartialOrd for NodeMode {
+    fn partial_cmp(&self, other: &NodeMode) -> (r: Option<core::cmp::Ordering>) {
+        let (a, b) = (self.rank_(), other.rank_());
+        if a < b { Some(core::cmp::Ordering::Less) } else if a == b { Some(core::cmp::Ordering::Equal) } else { Some(core::cmp::Ordering::Greater) }
+    }
+}
+impl vstd::std_specs::cmp::PartialOrdSpecImpl for NodeMode {
+    open spec fn obeys_partial_cmp_spec() -> bool { true }
+    open spec fn partial_cmp_spec(&self, other: &NodeMode) -> Option<core::cmp::Ordering> {
+        if kind_rank(*self) < kind_rank(*other) { Some(core::cmp::Ordering::Less) } else if kind_rank(*self) == kind_rank(*other) { Some(core::cmp::Ordering::Equal) } else { Some(core::cmp::Ordering::Greater) }
+    }
+}
 impl Key {
     pub open spec fn a(&self) -> AKey { AKey { index: self.index, kind: self.node.mode, id: self.node.item } }
 }
@@ -455,24 +469,25 @@ impl<DC: DataCodec> RoIter<DC> {
 /// Mutable cursor. `cur` is the view the cursor expects the transaction to have (all mutation
 /// while the cursor lives goes through the cursor: enforced by the borrow checker on the real code,
 /// by `requires wtxn.view() == self.cur@` here).
-pub struct RwCursor<DC> { pub keys: Ghost<Seq<AKey>>, pub pos: Ghost<int>, pub cur: Ghost<DbView>, pub live: Ghost<bool>, pub _v: core::marker::PhantomData<DC> }
+pub struct RwCursor<DC> { pub keys: Ghost<Seq<AKey>>, pub pos: Ghost<int>, pub cur: Ghost<DbView>, pub init: Ghost<DbView>, pub sel: Ghost<Sel>, pub rev: Ghost<bool>, pub live: Ghost<bool>, pub _v: core::marker::PhantomData<DC> }
 impl<DC: DataCodec> RwCursor<DC> {
     pub open spec fn fresh(&self, v: DbView, s: Sel, rev: bool) -> bool {
-        self.cur@ == v && is_listing_dir(v, s, self.keys@, rev) && self.pos@ == 0 && !self.live@
+        self.cur@ == v && self.init@ == v && self.sel@ == s && self.rev@ == rev && is_listing_dir(v, s, self.keys@, rev) && self.pos@ == 0 && !self.live@
     }
     pub fn remap_key_type<KC>(self) -> (r: RwCursor<DC>) ensures r == self { self }
     pub fn remap_data_type<DC2: DataCodec>(self) -> (r: RwCursor<DC2>)
-        ensures r.keys == self.keys, r.pos == self.pos, r.cur == self.cur, r.live == self.live
-    { RwCursor { keys: self.keys, pos: self.pos, cur: self.cur, live: self.live, _v: core::marker::PhantomData } }
+        ensures r.keys == self.keys, r.pos == self.pos, r.cur == self.cur, r.live == self.live, r.init == self.init, r.sel == self.sel, r.rev == self.rev
+    { RwCursor { keys: self.keys, pos: self.pos, cur: self.cur, init: self.init, sel: self.sel, rev: self.rev, live: self.live, _v: core::marker::PhantomData } }
     pub fn remap_types<KC, DC2: DataCodec>(self) -> (r: RwCursor<DC2>)
-        ensures r.keys == self.keys, r.pos == self.pos, r.cur == self.cur, r.live == self.live
-    { RwCursor { keys: self.keys, pos: self.pos, cur: self.cur, live: self.live, _v: core::marker::PhantomData } }
+        ensures r.keys == self.keys, r.pos == self.pos, r.cur == self.cur, r.live == self.live, r.init == self.init, r.sel == self.sel, r.rev == self.rev
+    { RwCursor { keys: self.keys, pos: self.pos, cur: self.cur, init: self.init, sel: self.sel, rev: self.rev, live: self.live, _v: core::marker::PhantomData } }
     #[verifier::external_body]
     pub fn next(&mut self, wtxn: &mut Txn) -> (r: Option<heed::Result<(Key, DC::DItem)>>)
         requires old(wtxn).view() == old(self).cur@, 0 <= old(self).pos@ <= old(self).keys@.len()
         ensures
             final(wtxn).view() == old(wtxn).view(),
             final(self).keys == old(self).keys, final(self).cur == old(self).cur,
+            final(self).init == old(self).init, final(self).sel == old(self).sel, final(self).rev == old(self).rev,
             match r {
                 None => old(self).pos@ == old(self).keys@.len() && final(self).pos == old(self).pos && !final(self).live@,
                 Some(Ok((k, v))) => old(self).pos@ < old(self).keys@.len() && k.a() == old(self).keys@[old(self).pos@]
@@ -486,6 +501,7 @@ impl<DC: DataCodec> RwCursor<DC> {
         requires old(wtxn).view() == old(self).cur@, old(self).live@, 0 < old(self).pos@ <= old(self).keys@.len()
         ensures is_heed(r),
             final(self).keys == old(self).keys, final(self).pos == old(self).pos, final(self).cur@ == final(wtxn).view(),
+            final(self).init == old(self).init, final(self).sel == old(self).sel, final(self).rev == old(self).rev,
             !final(self).live@,
             match r {
                 Ok(_) => final(wtxn).view() == old(wtxn).view().remove(old(self).keys@[old(self).pos@ - 1]),
@@ -497,6 +513,7 @@ impl<DC: DataCodec> RwCursor<DC> {
             key.a() == old(self).keys@[old(self).pos@ - 1]
         ensures is_heed(r),
             final(self).keys == old(self).keys, final(self).pos == old(self).pos, final(self).cur@ == final(wtxn).view(),
+            final(self).init == old(self).init, final(self).sel == old(self).sel, final(self).rev == old(self).rev,
             final(self).live@,
             match r {
                 Ok(_) => final(wtxn).view() == old(wtxn).view().insert(key.a(), DC::enc_val(v)),
@@ -508,6 +525,7 @@ impl<DC: DataCodec> RwCursor<DC> {
             key.a() == old(self).keys@[old(self).pos@ - 1], !flags.append
         ensures is_heed(r),
             final(self).keys == old(self).keys, final(self).pos == old(self).pos, final(self).cur@ == final(wtxn).view(),
+            final(self).init == old(self).init, final(self).sel == old(self).sel, final(self).rev == old(self).rev,
             final(self).live@,
             match r {
                 Ok(_) => final(wtxn).view() == old(wtxn).view().insert(key.a(), DC2::enc_val(v)),
@@ -556,4 +574,5 @@ impl<T, E> MapSome<T, E> for core::result::Result<T, E> {
     fn map_some_(self) -> (r: core::result::Result<Option<T>, E>) { match self { Ok(v) => Ok(Some(v)), Err(e) => Err(e) } }
 }
 pub struct ItemIter { pub inner: RoIter<NodeCodec>, pub dimensions: usize }
-pub open spec fn trunc(s: Seq<f32>, n: int) -> Seq<f32> { if n < s.len() { s.subrange(0, n) } else { s } }
+/// Vec::truncate as specified by vstd (n <= len: prefix of length n; else unchanged)
+pub open spec fn trunc(s: Seq<f32>, n: int) -> Seq<f32> { if n <= s.len() { s.subrange(0, n) } else { s } }
